@@ -713,3 +713,4 @@ def _replay(case):
             f'(payload {case["payload"]!r})')
 
 MANIFEST['text'] += ' The same requests also carry a Content-Length header (own shards); sizes spelled with 17 digits, bodies of thousands of chunks, chunked multipart forms with all their truncations, and chunked forms / JSON read through the form accessors (whole value or client error) are layers of their own.'
+MANIFEST['text'] += " Bytes inserted between a chunk's data and its CRLF must be refused; WSGI-level cases are served on a worker thread."
